@@ -28,6 +28,9 @@ type EsSpec struct {
 	LateAudio int // audio starts only after this many video frames (0 = from the start)
 	TsBack    bool // one backward timestamp jump to below the stream's first timestamp
 	TrailingNonIdr bool // key frames may end with a non-IDR NAL unit (filler data)
+	PsChange       bool // one key frame in the middle carries in-band SPS + a NEW PPS; it is in force from there on
+	PartialPS      bool // H.265: some later key frames repeat SPS+PPS in-band without the VPS
+	AscChange      bool // AAC: a second sequence header with another channel configuration / object type mid-stream
 	LonePS         bool // some non-key frames are preceded by a PPS or an SPS on its own (parameter-set update sent separately)
 }
 
@@ -48,6 +51,9 @@ type EsStream struct {
 	Sps    []byte
 	Pps    []byte
 	Asc    []byte
+	Pps2   []byte // PsChange: the PPS in force from frame PsChangeFrame on
+	Asc2   []byte // AscChange: the config in force from frame AscChangeFrame on
+	PsChangeFrame, AscChangeFrame int // frame indices (−1: no change)
 	Frames []EsFrame
 	AClock int // audio sampling rate
 }
@@ -130,6 +136,20 @@ func BuildEs(r *rand.Rand, inc int, sp EsSpec) *EsStream {
 	ts := sp.TsStart
 	idx := 0
 	hevc := sp.VCodec == "hevc" || sp.VCodec == "hevc-enh"
+	es.PsChangeFrame, es.AscChangeFrame = -1, -1
+	curPps := es.Pps
+	if sp.PsChange && sp.VCodec != "" {
+		if hevc {
+			es.Pps2 = HevcPpsVer(inc, 1)
+		} else {
+			es.Pps2 = append([]byte{0x68, 0xce, 0x3c, 0x80}, Tag(inc, SeqHdrTagBase+1)...)
+		}
+	}
+	if sp.AscChange && sp.ACodec == "aac" {
+		obj, ch := int(es.Asc[0]>>3), int(es.Asc[1]>>3&0xf)
+		obj, ch = obj%4+1, ch%7+1
+		es.Asc2 = []byte{byte(obj<<3 | sp.AacIdx>>1), byte(sp.AacIdx<<7 | ch<<3)}
+	}
 	for v := 0; v < sp.NVideo || (sp.VCodec == "" && v < sp.NVideo); v++ {
 		if sp.VCodec != "" {
 			key := v%sp.GopLen == 0
@@ -190,18 +210,29 @@ func BuildEs(r *rand.Rand, inc int, sp EsSpec) *EsStream {
 					f.Nals = append([][]byte{{0x09, 0xf0}, TaggedNal(r, []byte{0x06}, inc, idx*8+7, 20+r.Intn(40))}, f.Nals...)
 				}
 			}
-			if sp.InBandPS && key && r.Intn(2) == 0 {
+			if es.Pps2 != nil && es.PsChangeFrame < 0 && key && v >= sp.NVideo/2 {
+				// the parameter-set change: SPS (unchanged) and the new PPS travel in-band with this key frame
+				es.PsChangeFrame = idx
+				curPps = es.Pps2
 				if hevc {
-					f.Nals = append([][]byte{es.Vps, es.Sps, es.Pps}, f.Nals...)
+					f.Nals = append([][]byte{es.Vps, es.Sps, curPps}, f.Nals...)
 				} else {
-					f.Nals = append([][]byte{es.Sps, es.Pps}, f.Nals...)
+					f.Nals = append([][]byte{es.Sps, curPps}, f.Nals...)
+				}
+			} else if sp.PartialPS && hevc && key && v > 0 && r.Intn(2) == 0 {
+				f.Nals = append([][]byte{es.Sps, curPps}, f.Nals...)
+			} else if sp.InBandPS && key && r.Intn(2) == 0 {
+				if hevc {
+					f.Nals = append([][]byte{es.Vps, es.Sps, curPps}, f.Nals...)
+				} else {
+					f.Nals = append([][]byte{es.Sps, curPps}, f.Nals...)
 				}
 			}
 			if sp.LonePS && !key && r.Intn(6) == 0 {
 				if r.Intn(3) == 0 {
 					f.Nals = append([][]byte{es.Sps}, f.Nals...)
 				} else {
-					f.Nals = append([][]byte{es.Pps}, f.Nals...)
+					f.Nals = append([][]byte{curPps}, f.Nals...)
 				}
 			}
 			es.Frames = append(es.Frames, f)
@@ -221,6 +252,9 @@ func BuildEs(r *rand.Rand, inc int, sp EsSpec) *EsStream {
 					size = []int{14, 255, 256, 1000, 2000}[r.Intn(5)]
 				}
 				f := EsFrame{Idx: idx, Ts: ts + uint32(a*sp.VideoMs/(na+1))}
+				if es.Asc2 != nil && es.AscChangeFrame < 0 && v >= sp.NVideo/2 {
+					es.AscChangeFrame = idx
+				}
 				f.Audio = append(Tag(inc, idx*8), nalFill(r, size-12)...)
 				es.Frames = append(es.Frames, f)
 				idx++
@@ -245,6 +279,21 @@ type EsMsg struct {
 	Frame   int // index into Frames, −1 for headers
 }
 
+// PpsAt / AscAt: the PPS / AudioSpecificConfig in force for frame index fi.
+func (es *EsStream) PpsAt(fi int) []byte {
+	if es.PsChangeFrame >= 0 && fi >= es.PsChangeFrame {
+		return es.Pps2
+	}
+	return es.Pps
+}
+
+func (es *EsStream) AscAt(fi int) []byte {
+	if es.AscChangeFrame >= 0 && fi >= es.AscChangeFrame {
+		return es.Asc2
+	}
+	return es.Asc
+}
+
 func (es *EsStream) RtmpMessages(withMeta bool) []EsMsg {
 	var out []EsMsg
 	ts0 := es.Spec.TsStart
@@ -267,6 +316,9 @@ func (es *EsStream) RtmpMessages(withMeta bool) []EsMsg {
 		out = append(out, EsMsg{8, ts0, append([]byte{0xAF, 0x00}, es.Asc...), -1})
 	}
 	for i, f := range es.Frames {
+		if i == es.AscChangeFrame {
+			out = append(out, EsMsg{8, f.Ts, append([]byte{0xAF, 0x00}, es.Asc2...), -1})
+		}
 		if f.Video {
 			var b []byte
 			ft := byte(2)
